@@ -188,6 +188,8 @@ def importStrans (st : Option Strans) (array : Bool) : Out (Bool × Option Nat) 
   | some s =>
     if s.absMag || s.absAngle then .err
     else if array && s.mag.isSome then .err
+    -- instances have no scale: a magnified reference is refused (fix ab87cd1); MAG 1.0 is the identity
+    else if s.mag.isSome && s.mag != some 0x3ff0000000000000 then .err
     else .ok (s.reflected, s.angle)
 
 def arrayInsts (cname : Bytes) (p0 : Pt) (cols rows colx coly rowx rowy : Int) (refl : Bool) (angle : Option Nat) : List Inst :=
